@@ -168,6 +168,7 @@ func init() {
 			k.NoFaults, k.PFault, k.PPanic = false, 4, 50
 			k.WCycleCloser = 1
 			k.PSideKey = 7 // constructor bodies that register a constructor for a fresh key while they run
+			k.PShadow = 30 // the same key provided again below a scope that provides (and perhaps already built) it
 			return k
 		},
 		clauses: []string{CProvSingle, CFromNowhere, CVerdictInvoke, CGroupForeign, CGroupMultiset, CZeroAvailable, CBadExec},
